@@ -128,3 +128,31 @@ Definition recon_check (c : recon_case) : bool :=
 Definition recon_model (c : recon_case) :=
   let '(o, l, w) := reconcile (rc_hashes c) (rc_api c) (rc_cache c) (rc_faults c) in
   (o, map (fun e => (shape_of (fst e), snd e)) (canon l), world_digest w).
+
+(* ---- projections: each property compares only the calls it speaks about ---- *)
+Definition pi_pod_delete (e : entry) : bool := match fst e with CDeletePod _ => true | _ => false end.
+Definition pi_pod_create (e : entry) : bool := match fst e with CCreatePod _ _ _ => true | _ => false end.
+Definition pi_pod_cd (e : entry) : bool := pi_pod_delete e || pi_pod_create e.
+Definition pi_pod_write (e : entry) : bool :=
+  match fst e with CDeletePod _ | CCreatePod _ _ _ | CUpdatePod _ | CPatchPod _ _ | CCreateClaim _ => true | _ => false end.
+Definition pi_status (e : entry) : bool := match fst e with CUpdateStatus _ _ => true | _ => false end.
+Definition pi_rev_delete (e : entry) : bool := match fst e with CDeleteRev _ => true | _ => false end.
+Definition pi_rev_write (e : entry) : bool :=
+  match fst e with CCreateRev _ _ _ | CUpdateRev _ _ _ | CPatchRev _ | CDeleteRev _ => true | _ => false end.
+Definition pi_write (e : entry) : bool :=
+  match fst e with CListRevs _ | CGetSet | CGetRev _ => false | _ => true end.
+Definition pi_own (e : entry) : bool :=
+  match fst e with CPatchPod _ _ | CPatchRev _ | CGetSet | CUpdateRev _ _ _ | CDeleteRev _ | CDeletePod _ | CUpdatePod _ => true | _ => false end.
+Definition pi_all (e : entry) : bool := true.
+
+Definition recon_check_proj (pi : entry -> bool) (cmp_outcome : bool) (c : recon_case) : bool :=
+  let '(o, l, w) := reconcile (rc_hashes c) (rc_api c) (rc_cache c) (rc_faults c) in
+  (if cmp_outcome then outcome_eqb o (rc_out c) else true)
+  && list_eqb entry_eqb (filter pi (canon l)) (filter pi (canon (rc_log c))).
+Definition recon_model_proj (pi : entry -> bool) (c : recon_case) :=
+  let '(o, l, w) := reconcile (rc_hashes c) (rc_api c) (rc_cache c) (rc_faults c) in
+  (o, map (fun e => (shape_of (fst e), snd e)) (filter pi (canon l))).
+(* panic flag only (C15) *)
+Definition recon_check_panic (c : recon_case) : bool :=
+  let '(o, l, w) := reconcile (rc_hashes c) (rc_api c) (rc_cache c) (rc_faults c) in
+  Bool.eqb (outcome_eqb o OPanic) (outcome_eqb (rc_out c) OPanic).
